@@ -41,7 +41,7 @@ characteristics of Python's built-in set implementation.
 
 
 from bisect import bisect_left
-from collections.abc import MutableSet
+from collections.abc import MutableSet, Set
 from itertools import chain, islice
 import operator
 
@@ -279,8 +279,8 @@ class IndexedSet(MutableSet):
 
     def issuperset(self, other):
         "issuperset(other) -> return True if set contains other"
-        if len(other) > len(self):
-            return False
+        if isinstance(other, Set) and len(other) > len(self):
+            return False  # (a list may repeat values, its len proves nothing)
         iim = self.item_index_map
         for k in other:
             if k not in iim:
